@@ -234,6 +234,7 @@ type TCPFrame struct {
 	SrcIP, DstIP   IP4
 	IHL            int
 	TotalLen       int
+	ID             uint16 // IPv4 identification
 	TTL            byte
 	Sport, Dport   uint16
 	Seq, Ack       uint32
@@ -285,6 +286,7 @@ func DecodeTCPFrame(b []byte) (*TCPFrame, error) {
 	if ip[9] != ProtoTCP {
 		return nil, fmt.Errorf("ip protocol %d, want 6", ip[9])
 	}
+	f.ID = binary.BigEndian.Uint16(ip[4:6])
 	f.TTL = ip[8]
 	copy(f.SrcIP[:], ip[12:16])
 	copy(f.DstIP[:], ip[16:20])
